@@ -215,6 +215,14 @@ func TestVerifInformer(t *testing.T) {
 			listBefore := []int{countLog(sim, "list", "widgets"), countLog(sim, "list", "configmaps")}
 			closedBefore := []int{countLog(sim, "watch-closed", "widgets"), countLog(sim, "watch-closed", "configmaps")}
 			choice := r.Intn(12)
+			// now and then somebody asks for a resource discovery does not know: that subscription fails and must leave no trace
+			failedSubscribe := false
+			if r.Chance(15) {
+				if _, err := f.Resource("example.com/v1", "nonesuch"); err == nil {
+					t.Fatal("subscription to an unknown resource succeeded")
+				}
+				failedSubscribe = true
+			}
 			var openSubs []int
 			for si, s := range subs {
 				if s.open {
@@ -428,6 +436,7 @@ func TestVerifInformer(t *testing.T) {
 			rc, infs := f.VerifCounts()
 			sort.Strings(infs)
 			op["refCount"] = rc
+			op["failedSubscribe"] = failedSubscribe
 			op["informers"] = infs
 			ops = append(ops, op)
 			if extra != nil {
